@@ -68,6 +68,52 @@ class ModuleFacts:
                 yield node
 
 
+PURE_BUILTINS = {"str", "len", "int", "bool", "float", "tuple", "frozenset", "isinstance", "range", "enumerate", "zip", "sorted", "reversed", "min", "max", "sum", "any", "all", "repr", "ord", "chr", "abs"}
+
+
+def is_value_pure(fn: ast.FunctionDef, own_cache: Set[str] = frozenset()) -> bool:
+    """A function whose result is computed from its (at least one) parameters by string / tuple / arithmetic operations only: no reference
+    to a converter, cattrs, attrs, the generated classes or any module-level name other than `own_cache` (a memo table it maintains), no call
+    except builtins on the allow-list and methods of its own parameters / locals / literals.  Memoising such a function - by a decorator or
+    by a module-level dict keyed by its arguments - is invisible to every converter (idempotent even under races)."""
+    params = {a.arg for a in fn.args.args + fn.args.kwonlyargs}
+    if not params or fn.args.vararg or fn.args.kwarg:
+        return False
+    local = set(params)
+    for node in (x for st in fn.body for x in ast.walk(st)):
+        if isinstance(node, ast.Name) and isinstance(node.ctx, ast.Store):
+            local.add(node.id)
+        if isinstance(node, ast.comprehension):
+            for y in ast.walk(node.target):
+                if isinstance(y, ast.Name):
+                    local.add(y.id)
+    for node in (x for st in fn.body for x in ast.walk(st)):
+        if isinstance(node, (ast.Global, ast.Nonlocal, ast.Lambda, ast.Await, ast.Yield, ast.YieldFrom, ast.Import, ast.ImportFrom, ast.With, ast.Try)):
+            return False
+        if isinstance(node, ast.FunctionDef) and node is not fn:
+            return False
+        if isinstance(node, ast.Name) and isinstance(node.ctx, ast.Load):
+            if node.id not in local and node.id not in PURE_BUILTINS and node.id not in own_cache and node.id not in ("True", "False", "None"):
+                return False
+        if isinstance(node, ast.Call):
+            f = node.func
+            if isinstance(f, ast.Name):
+                if f.id not in PURE_BUILTINS:
+                    return False
+            elif isinstance(f, ast.Attribute):
+                base = f.value
+                while isinstance(base, (ast.Attribute, ast.Subscript, ast.Call)):
+                    base = base.func if isinstance(base, ast.Call) else base.value
+                if isinstance(base, ast.Name):
+                    if base.id not in local and base.id not in own_cache:
+                        return False
+                elif not isinstance(base, (ast.Constant, ast.JoinedStr)):
+                    return False
+            else:
+                return False
+    return True
+
+
 def writes_in(fn: ast.AST, names: Set[str]) -> List[Tuple[str, str, int]]:
     """Mutations of module-level names inside fn: global rebinding, subscript/attribute stores, mutating method calls."""
     out = []
@@ -129,10 +175,18 @@ def main(argv: List[str]) -> int:
             ws = writes_in(fn, top_names)
             for name, how, line in ws:
                 allowed = mod is hooks and fn.name == "_resolve_forward_references" and name == "_resolved_forward_references"
+                if not allowed and mod.mutable_globals.get(name) in ("Dict", "dict") and how == "stores into" and is_value_pure(fn, {name}):
+                    allowed = True  # a memo table of a value-pure function
+                    run.notes.append(f"{mod.rel.split('/')[-1]}::{fn.name} memoises a value-pure computation in module-level `{name}`: invisible to converters")
                 ob(allowed, f"frame:{mod.rel.split('/')[-1]}:{fn.name}:{name}", f"{mod.rel.split('/')[-1]}::{fn.name} {how} module-level `{name}`: state shared by all converters (and threads) is mutated outside the once-only resolution", function=fn.name, name=name)
             if not ws:
                 ob(True, "", "")
         for name, deco in mod.cached_funcs.items():
+            fdef = next((f_ for f_ in mod.tree.body if isinstance(f_, ast.FunctionDef) and f_.name == name), None)
+            if fdef is not None and is_value_pure(fdef):
+                ob(True, "", "")
+                run.notes.append(f"{mod.rel.split('/')[-1]}::{name} is cached ({deco}) but value-pure (result computed from its arguments only): invisible to converters")
+                continue
             ob(False, f"frame:{mod.rel.split('/')[-1]}:{name}:cache", f"{mod.rel.split('/')[-1]}::{name} is decorated with {deco}: results are shared process-wide across converters and threads")
     # 2. hooks close over their own converter only: free variables of every nested function in the three register functions
     allowed_free = {"converter", "lsp_types"}
